@@ -99,3 +99,7 @@ def run(ctx):
             rr.append(f'sxg.reread {what} {f} {" ".join(b)}')
             rr.append(f'sxg.reuse {what} {" ".join(e0)} {" ".join(b)}')
     ctx.both(rr)
+    # the file layout as the command-line tool emits it (fresh path, over an existing longer file, to stdout; dumps of the header
+    # block and of the signed message): accepted by an independent run of dump-signedexchange -verify
+    import c20
+    c20.sxg_cli_stage(ctx, rng, thorough)
